@@ -4,7 +4,7 @@
    Spec.C19_Spec is what the property text names (splitlines, the lines of a file). *)
 From Boltons Require Import Lib.Prelude Lib.C19_Utf8 Spec.C19_Spec Model.C19_Model Gen.C19_Gen.
 From Boltons Require Import Proofs.C19_Split Proofs.C19_IterSplit Proofs.C19_Reverse Proofs.C19_Text Proofs.C19_Jsonl.
-From Boltons Require Import Check.C19_Check Proofs.C19_Oracle Proofs.C19_SpecChar.
+From Boltons Require Import Check.C19_Check Proofs.C19_Oracle Proofs.C19_SpecChar Proofs.C19_Tables.
 Open Scope N_scope.
 
 (* ---- iter_splitlines ---------------------------------------------------------------- *)
@@ -184,3 +184,26 @@ Theorem C19_spec_characterised : forall t, t <> [] ->
   interleave ls (breaks_of is_break t) = t.
 Proof. exact spec_lines_characterised. Qed.
 Print Assumptions C19_spec_characterised.
+
+(* ---- the CPython tables behind Spec and Model, re-probed on every run ------------------------ *)
+(* Gen.C19_Gen lists, for the interpreter that runs the check, every code point / byte at which
+   str.splitlines / bytes.splitlines break, that str.lstrip / bytes.lstrip remove and that json.loads
+   skips; the predicates used in Spec, Model and Check are exactly those tables. *)
+Theorem C19_py_str_breaks : forall c, is_break c || is_sep_ctl c = mem c gen_py_str_breaks.
+Proof. exact str_breaks_table. Qed.
+Print Assumptions C19_py_str_breaks.
+Theorem C19_py_bytes_breaks : forall c, is_nl_byte c = mem c gen_py_bytes_breaks.
+Proof. exact bytes_breaks_table. Qed.
+Print Assumptions C19_py_bytes_breaks.
+Theorem C19_py_str_space : forall c, is_ws_str c = mem c gen_py_str_space.
+Proof. exact str_space_table. Qed.
+Print Assumptions C19_py_str_space.
+Theorem C19_py_bytes_space : forall c, is_ws_bytes c = mem c gen_py_bytes_space.
+Proof. exact bytes_space_table. Qed.
+Print Assumptions C19_py_bytes_space.
+Theorem C19_py_json_space : forall c, is_json_ws c = mem c gen_py_json_space.
+Proof. exact json_space_table. Qed.
+Print Assumptions C19_py_json_space.
+Theorem C19_py_crlf_one_break : gen_py_crlf_is_one_break = true.
+Proof. exact (eq_refl true). Qed.
+Print Assumptions C19_py_crlf_one_break.
